@@ -36,12 +36,12 @@ FEATURES = [
     "qubit_borrow_arg", "qubit_return",
     # control flow
     "if", "if_else", "elif", "nested_if", "while", "while_true", "for_range", "for_range2", "break", "continue",
-    "early_return", "return_in_loop", "joint_def", "joint_def_linear", "one_path_var", "branch_fixup_consume",
+    "early_return", "return_in_loop", "dead_code", "joint_def", "joint_def_linear", "one_path_var", "branch_fixup_consume",
     "branch_fixup_refill", "loop_fixup_consume", "loop_fixup_refill", "return_fixup_consume", "return_fixup_refill", "nested_loop", "linear_across_loop",
     "linear_across_if", "struct_across_loop", "tuple_across_branch",
     # functions
     "helper_call", "recursion", "generic_copy", "generic_linear", "generic_array", "generic_pair", "comptime_arg",
-    "nested_fn", "closure", "nested_fn_qubit", "higher_order", "none_return",
+    "nested_fn", "closure", "nested_fn_qubit", "higher_order", "none_return", "fn_value", "retype",
     # arrays / affine values
     "array_lit", "array_index", "array_dyn_index", "array_set", "array_pass", "array_owned_arg", "array_return",
     "array_len", "array_copy", "qarray", "qarray_gate", "measure_array", "discard_array", "for_array",
@@ -71,6 +71,11 @@ def OPT(t):
 
 def FN(args, ret):
     return ("fn", tuple(args), ret)
+
+
+# When True the generator also emits two constructs that are known to trip /repo (see the NB
+# comments at their use sites); leave False for a high acceptance rate.
+RISKY = False
 
 
 class GenFail(Exception):
@@ -267,7 +272,7 @@ class Gen:
     def rand_classical(self, d=0):
         opts = [(6, INT), (3, BOOL), (2, FLOAT)]
         if d < 2:
-            opts.append((1.5, "tuple"))
+            opts.append((2.2, "tuple"))
             cs = [n for n in self.structs if self.kind(STRUCT(n)) == 0]
             if cs:
                 opts.append((1.5, "cstruct"))
@@ -341,7 +346,7 @@ class Gen:
                     continue
                 p = self.pstr(var.name, path)
                 if t == ty:
-                    out.append((p, "field" if path else "var"))
+                    out.append((p, ("field_after_move" if var.moved else "field") if path else "var"))
                 elif t[0] == "tuple" and self.kind(t) == 0:
                     for i, ct in enumerate(t[1]):
                         if ct == ty:
@@ -357,6 +362,8 @@ class Gen:
         s, how = self.rng.choice(at)
         if how == "field":
             self.feat("struct_field_read")
+        elif how == "field_after_move":
+            self.feat("struct_field_read", "struct_field_after_move")
         elif how == "tuple_index":
             self.feat("tuple_index")
         elif how == "array_index":
@@ -476,6 +483,8 @@ class Gen:
                 raise GenFail
             v, p = rng.choice(c)
             self.feat("array_len")
+            self.fc.used.append((v.name, p))
+            self.fc.borrowed_any = True
             return f"len({self.pstr(v.name, p)})"
 
         def dyn():
@@ -501,7 +510,7 @@ class Gen:
         if d >= self.MAXD:
             return self.try_opts([(2, lit), (5, atom)])
         return self.try_opts([(2, lit), (6, atom), (5, binop), (0.7, neg), (0.8, ifexp), (0.7, cast), (2.5, call),
-                              (0.5, alen), (0.5, dyn), (0.3, comptime), (0.15 if not pure else 0, walrus)])
+                              (0.5, alen), (1.0, dyn), (0.3, comptime), (0.15 if not pure else 0, walrus)])
 
     def e_float(self, env, d, pure):
         rng = self.rng
@@ -567,10 +576,12 @@ class Gen:
             op = rng.choice(["<", "<=", ">", ">=", "==", "!="])
             self.feat("compare")
             if rng.random() < 0.75:
+                chained = rng.random() < 0.1
                 a = self.e_int(env, d + 1, pure)
-                b = self.e_int(env, d + 1, pure)
-                if rng.random() < 0.1:
-                    c = self.e_int(env, d + 1, pure)
+                # `a < b < c`: c is evaluated conditionally and (known finding D9) b twice -> no moves there
+                b = self.e_int(env, d + 1, pure or chained)
+                if chained:
+                    c = self.e_int(env, d + 1, True)
                     self.feat("chained_cmp")
                     return f"({a} {op} {b} {rng.choice(['<', '<=', '>'])} {c})"
             else:
@@ -626,6 +637,17 @@ class Gen:
             return self.try_opts([(1, lit), (5, atom), (1.5, meas)])
         return self.try_opts([(0.7, lit), (5, atom), (7, cmp_), (2.5, boolop), (1.2, not_), (0.5, beq), (2, meas),
                               (0.5, opt), (0.4, ifexp), (2, call)])
+
+    def nonconst_cond(self, env, pure, d=0):
+        """a condition that the compiler's constant branch folding does not decide (best effort)"""
+        for _ in range(4):
+            saved = env.clone()
+            c = self.e_bool(env, d, pure)
+            toks = c.replace("(", " ").replace(")", " ").split()
+            if "True" not in toks and "False" not in toks:
+                return c
+            env.restore(saved)
+        return f"({self.e_int(env, 1, True)} > {self.lit_int()})"
 
     def _option_atoms(self, env):
         out = []
@@ -707,7 +729,7 @@ class Gen:
 
         if d >= self.MAXD + 1:
             return self.try_opts([(3, mv), (2, build)])
-        return self.try_opts([(4, mv), (3, build), (2.5, call), (0.7, cp)])
+        return self.try_opts([(4, mv), (3, build), (2.5, call), (2.5, cp)])
 
     def e_fn(self, env, ty):
         c = []
@@ -913,7 +935,7 @@ class Gen:
             want_moved = [lp for lp, _ in lv] if tgt is None else list(tgt)
             # whole-struct consumption through a helper taking it @owned
             if (var.ty[0] == "struct" and self.kind(var.ty) == 2 and not var.borrowed and not var.moved
-                    and len(want_moved) == len(lv) and self.chance(0.5)):
+                    and len(want_moved) == len(lv) and self.chance(0.8)):
                 hs = self.whole_consumers(var.ty)
                 if hs:
                     h = self.rng.choice(hs)
@@ -1021,6 +1043,11 @@ class Gen:
                     self.fixup(env, fc.loops[-1].head, out, pad, "loop")
                     out.append(pad + k)
                     self.feat(k)
+                if self.chance(0.1):
+                    # unreachable classical statement after the terminator
+                    self.begin_stmt()
+                    out.append(f"{pad}{self.fresh()} = {self.e_int(env, 1, True)}")
+                    self.feat("dead_code")
                 return out, True
         if not out:
             out.append(pad + "pass")
@@ -1035,7 +1062,8 @@ class Gen:
             (0 if deep else 5.5, self.s_if), (0 if deep else 2.2, self.s_while), (0 if deep else 2.2, self.s_for),
             (0 if deep else 0.8, self.s_for_array), (3.5, self.s_call), (0 if fc.nest or deep else 1.2, self.s_nested_def),
             (1.5, self.s_array_set), (0.8, self.s_drop), (0.3, self.s_pass), (0.6, self.s_multi_assign),
-            (1.2, self.s_struct_let), (1.0, self.s_array_let),
+            (1.2, self.s_struct_let), (1.0, self.s_array_let), (0.8, self.s_array_copy), (0.8, self.s_retype),
+            (0.0 if fc.nest else 0.6, self.s_fn_value),
         ]
         for f in self.wshuffle(opts)[:10]:
             saved = env.clone()
@@ -1239,6 +1267,7 @@ class Gen:
             if not c:
                 raise GenFail
             _h, ps, name = c[0]
+            self._prealloc(env, out, ind, ps)
             out.append(pad + self.gen_call(env, h, ps, name, 0, False))
             self.feat("none_return")
             return
@@ -1246,6 +1275,7 @@ class Gen:
         if not c:
             raise GenFail
         _h, ps, name = c[0]
+        self._prealloc(env, out, ind, ps)
         call = self.gen_call(env, h, ps, name, 0, False)
         if self.kind(want) == 0 and self.chance(0.2):
             out.append(pad + call)
@@ -1254,6 +1284,74 @@ class Gen:
             out.append(f"{pad}{n} = {call}")
             env.add(Var(n, want))
 
+    def _prealloc(self, env, out, ind, ps):
+        """define fresh variables for borrowed linear parameters that have no place to borrow"""
+        need = {}
+        for p in ps:
+            if self.kind(p.ty) == 2 and not p.owned:
+                need[p.ty] = need.get(p.ty, 0) + 1
+        for ty, cnt in need.items():
+            have = len(self.qubit_borrow_places(env)) if ty == QUBIT else len(self.places(env, ty, "borrow"))
+            for _ in range(max(0, cnt - have)):
+                out.append(f"{'    ' * ind}{(n := self.fresh('q' if ty == QUBIT else 'v'))} = {self.build(env, ty, 1, True)}")
+                env.add(Var(n, ty))
+        self.begin_stmt()
+
+    def s_array_copy(self, env, out, ind, d):
+        c = [(v, p, t) for v in env.vars.values() if v.fn is None for p, t in self.subplaces(v.ty)
+             if t[0] == "array" and self.kind(t) == 1 and self.avail(v, p)]
+        if not c:
+            raise GenFail
+        v, p, t = self.rng.choice(c)
+        n = self.fresh()
+        out.append(f"{'    ' * ind}{n} = {self.pstr(v.name, p)}.copy()")
+        env.add(Var(n, t))
+        self.feat("array_copy")
+
+    def s_retype(self, env, out, ind, d):
+        """re-bind a variable at another type; only in straight-line top-level code of a function"""
+        if d != 0 or self.fc.loops:
+            raise GenFail
+        c = [v for v in env.vars.values() if v.fn is None and not v.readonly and not v.borrowed
+             and (self.kind(v.ty) == 0 or len(v.moved) == len(self.leaves(v.ty)))]
+        if not c:
+            raise GenFail
+        sh = self.fc.self_helper
+        c = [v for v in c if sh is None or v.name != sh.params[0].name]
+        if not c:
+            raise GenFail
+        v = self.rng.choice(c)
+        # NB (finding) re-binding a variable that crossed a basic-block boundary at a *non-copyable*
+        # type is falsely rejected by /repo (AlreadyUsedError); only done when RISKY
+        ty = self.rand_ty() if RISKY else self.rand_classical()
+        if ty == v.ty or ty[0] == "option":
+            raise GenFail
+        e = self.expr(env, ty, 0, False)
+        out.append(f"{'    ' * ind}{v.name} = {e}")
+        v.ty = ty
+        v.moved = []
+        self.feat("retype")
+
+    def s_fn_value(self, env, out, ind, d):
+        c = [h for h in self.fc.helpers if h.generic is None and self.sig_ty(h) is not None
+             and not any(p.comptime or p.ty[0] == "fn" for p in h.params)]
+        if not c:
+            raise GenFail
+        h = self.rng.choice(c)
+        n = self.fresh("g")
+        out.append(f"{'    ' * ind}{n} = {h.name}")
+        inner = Helper(n, h.params, h.ret)
+        env.add(Var(n, self.sig_ty(h), fn=inner))
+        self.feat("fn_value")
+        self.begin_stmt()
+        call = self.gen_call(env, inner, inner.params, n, 0, False)
+        if h.ret == NONE:
+            out.append("    " * ind + call)
+        else:
+            r = self.fresh()
+            out.append(f"{'    ' * ind}{r} = {call}")
+            env.add(Var(r, h.ret))
+
     def s_array_set(self, env, out, ind, d):
         c = [(v, p, t) for v in env.vars.values() if v.fn is None and not v.readonly for p, t in self.subplaces(v.ty)
              if t[0] == "array" and self.kind(t) == 1 and self.avail(v, p)]
@@ -1261,8 +1359,17 @@ class Gen:
             raise GenFail
         v, p, t = self.rng.choice(c)
         self.fc.used.append((v.name, p))
-        if t[1] == INT and self.chance(0.25):
-            idx = f"{self.e_int(env, 1, True)} % {t[2]}"
+        if self.chance(0.4):
+            # NB (finding) IfExp / BoolOp / walrus / comptime() inside the index of a subscript
+            # *assignment target* crash /repo's checker (InternalGuppyError); only generated when RISKY
+            if RISKY:
+                idx = f"{self.e_int(env, 1, True)} % {t[2]}"
+            else:
+                at = [a_ for a_, _how in self.atoms(env, INT) if "[" not in a_] or [self.lit_int()]
+                idx = self.rng.choice(at)
+                if self.chance(0.3):
+                    idx = f"({idx} + {self.lit_int()})"
+                idx = f"{idx} % {t[2]}"
             self.feat("array_dyn_index")
         else:
             idx = str(self.rng.randrange(t[2]))
@@ -1294,13 +1401,13 @@ class Gen:
     # ---- compound statements
     def body_size(self, d):
         hi = max(1, self.size - d)
-        return self.rng.randint(1, min(hi, 3) + (1 if self.size > 2 and d == 0 else 0))
+        return self.rng.randint(1, min(hi, 3))
 
     def s_if(self, env, out, ind, d):
         rng = self.rng
         pad = "    " * ind
         outer_names = list(env.vars)
-        cond = self.e_bool(env, 0, False)
+        cond = self.e_bool(env, 0, False) if self.chance(0.1) else self.nonconst_cond(env, False)
         if "measure(" in cond:
             self.feat("measure_cond")
         nb = self.wchoice([(4, 1), (4, 2), (1.5, 3)])  # explicit branches; 1 = if only
@@ -1418,13 +1525,13 @@ class Gen:
             cond = f
             extras.append(lambda e_, o_, p_: o_.append(f"{p_}{f} = {self.e_bool(e_, 1, False)}"))
         elif mode == "expr":
-            cond = self.e_bool(env, 0, True)
+            cond = self.nonconst_cond(env, True)
         else:
             cond = "True"
             self.feat("while_true")
 
             def brk(e_, o_, p_):
-                c = self.e_bool(e_, 1, True)
+                c = self.nonconst_cond(e_, True, 1)
                 o_.append(f"{p_}if {c}:")
                 tmp = []
                 self.fixup(e_.clone(), self.fc.loops[-1].head, tmp, p_ + "    ", "loop")
@@ -1491,7 +1598,8 @@ class Gen:
         h = Helper(name, params, ret)
         captured = None
         if self.chance(0.6):
-            captured = [v for v in env.vars.values() if v.fn is None and self.kind(v.ty) == 0 and v.ty[0] != "option"]
+            captured = [v for v in env.vars.values()
+                        if v.fn is None and not v.readonly and self.kind(v.ty) == 0 and v.ty[0] != "option"]
             if captured:
                 self.need_experimental = True
                 self.feat("closure")
@@ -1519,9 +1627,15 @@ class Gen:
         env = Env()
         for v in captured or []:
             env.add(Var(v.name, v.ty, readonly=True))
+        fn_params = []
         for p in h.params:
             k = self.kind(p.ty)
-            env.add(Var(p.name, p.ty, borrowed=(k > 0 and not p.owned), readonly=p.comptime))
+            if p.ty[0] == "fn":
+                inner = Helper(p.name, [Param("_", t) for t in p.ty[1]], p.ty[2])
+                env.add(Var(p.name, p.ty, readonly=True, fn=inner))
+                fn_params.append(inner)
+            else:
+                env.add(Var(p.name, p.ty, borrowed=(k > 0 and not p.owned), readonly=p.comptime))
         saved_fc = self.fc
         helpers = saved_fc.helpers if saved_fc is not None and nest else self.helpers_so_far
         self.fc = FnCtx(h.ret, helpers, self_helper=h if h.recursive else None, nest=nest)
@@ -1544,7 +1658,15 @@ class Gen:
             if h.recursive:
                 body.append(f"{pad}    if {h.params[0].name} <= 0:")
                 self.gen_return(env.clone(), body, pad + "        ")
-            blk, term = self.block(env, nstmts, ind + 1, 0)
+            extras = []
+            for inner in fn_params:
+                def use_fn(e_, o_, p_, inner=inner):
+                    call = self.gen_call(e_, inner, inner.params, inner.name, 0, False)
+                    n_ = self.fresh()
+                    o_.append(f"{p_}{n_} = {call}")
+                    e_.add(Var(n_, inner.ret))
+                extras.append(use_fn)
+            blk, term = self.block(env, nstmts, ind + 1, 0, extras)
             if blk == [pad + "    pass"]:
                 blk = []
             body.extend(blk)
@@ -1593,8 +1715,8 @@ class Gen:
         n = self.wchoice([(1, 0), (3, 1), (4, 2), (3, 3)])
         kinds = []
         for _ in range(n):
-            kinds.append(self.wchoice([(7, "plain"), (2, "rec"), (1, "ident"), (1.2, "lident"), (1, "first"), (1, "sumarr"),
-                                       (0.8, "pair"), (1.5, "comptime"), (1.5, "app"), (2.0, "struct")]))
+            kinds.append(self.wchoice([(7, "plain"), (3, "rec"), (1.5, "arr"), (1, "ident"), (1.2, "lident"), (1, "first"), (1, "sumarr"),
+                                       (0.8, "pair"), (1.5, "comptime"), (1.5, "app"), (4.0, "struct")]))
         for kd in kinds:
             name = self.fresh("h")
             if kd == "ident":
@@ -1628,7 +1750,8 @@ class Gen:
                 f = self.fresh("fn")
                 h = Helper(name, [Param(f, FN([INT], INT)), Param(self.fresh("a"), INT)], INT)
                 # body: generated like any other; the function parameter is a local callable
-                src += self._gen_app(h) + [""]
+                src += self.gen_function(h, 0, rng.randint(0, 2)) + [""]
+                self.feat("higher_order")
                 self.helpers_so_far.append(h)
             else:
                 if kd == "comptime":
@@ -1637,6 +1760,11 @@ class Gen:
                 elif kd == "rec":
                     ps = [Param(self.fresh("n"), INT)] + self.rand_params(0, 2, linear_w=0.7)
                     ret = self.wchoice([(3, INT), (1, BOOL), (1, NONE), (1, self.rand_ty(0, 0.5))])
+                elif kd == "arr":
+                    at = ARR(rng.choice([INT, INT, BOOL, FLOAT]), rng.choice([2, 3]))
+                    ps = self.rand_params(0, 1, linear_w=0.5)
+                    ps.insert(rng.randint(0, len(ps)), Param(self.fresh("xs"), at, owned=self.chance(0.5)))
+                    ret = self.wchoice([(3, at), (2, INT), (1, NONE)])
                 elif kd == "struct" and self.structs:
                     st = STRUCT(rng.choice(list(self.structs)))
                     if self.chance(0.35):
@@ -1644,37 +1772,15 @@ class Gen:
                         ret = st
                     else:
                         ps = self.rand_params(0, 1, linear_w=0.5)
-                        ps.insert(rng.randint(0, len(ps)), Param(self.fresh("s"), st, owned=self.chance(0.6)))
+                        ps.insert(rng.randint(0, len(ps)), Param(self.fresh("s"), st, owned=self.chance(0.5)))
                         ret = self.wchoice([(3, INT), (2, BOOL), (1, NONE), (1, st)])
                 else:
                     ps = self.rand_params(1, 3)
                     ret = self.wchoice([(3, INT), (2, BOOL), (1, FLOAT), (1.5, NONE), (3, self.rand_ty(0))])
                 h = Helper(name, ps, ret, recursive=(kd == "rec"))
-                src += self.gen_function(h, 0, rng.randint(1, max(2, self.size))) + [""]
+                src += self.gen_function(h, 0, rng.randint(1, max(2, self.size - 1))) + [""]
                 self.helpers_so_far.append(h)
         return src
-
-    def _gen_app(self, h):
-        """higher-order helper: body may call its function parameter"""
-        fp = h.params[0]
-        inner = Helper(fp.name, [Param("_", INT)], INT)
-        lines = ["@guppy", f"def {h.name}({fp.name}: {self.ty_str(fp.ty)}, {h.params[1].name}: int) -> int:"]
-        env = Env()
-        env.add(Var(fp.name, fp.ty, fn=inner, readonly=True))
-        env.add(Var(h.params[1].name, INT))
-        saved = self.fc
-        self.fc = FnCtx(INT, self.helpers_so_far[:-1])
-        try:
-            blk, term = self.block(env, self.rng.randint(0, 2), 1, 0)
-            if blk != ["    pass"]:
-                lines += blk
-            if not term:
-                self.begin_stmt()
-                lines.append(f"    return {fp.name}({self.e_int(env, 1, True)})")
-        finally:
-            self.fc = saved
-        self.feat("higher_order")
-        return lines
 
     def _decl(self, s):
         if s not in self.decls:
@@ -1694,7 +1800,7 @@ class Gen:
             ps.append(Param("e", t, owned=self.kind(t) > 0 and self.chance(0.8)))
         ret = self.wchoice([(4, INT), (2, BOOL), (1, FLOAT), (1.5, NONE), (4, self.rand_ty(0, 1.5))])
         h = Helper("main", ps, ret)
-        n = rng.randint(2 * self.size - 1, 3 * self.size)
+        n = rng.randint(self.size + 1, 2 * self.size + 1)
         return self.gen_function(h, 0, n)
 
     def program(self):
